@@ -139,6 +139,9 @@ def run(ctx):
         # reuse of the encoder instance: an earlier stream with another block size, then Reset + Apply
         cases.append({"id": len(cases) + 1, "input": p["input"], "opts": p["opts"], "reads": rnd.choice([[4096], [1 << 20], [7, 300]]), "probe": p["id"],
                       "preCode": rnd.choice([5, 6, 7]), "preLen": rnd.choice([0, 10, 300000])})
+        # ... whose content size / block checksums the judged stream withdraws again
+        cases.append({"id": len(cases) + 1, "input": p["input"], "opts": p["opts"], "reads": rnd.choice([[4096], [1 << 20], [7, 300]]), "probe": p["id"],
+                      "preCode": rnd.choice([4, 5]), "preLen": rnd.choice([10, 70000]), "preSize": rnd.choice([1, 123456, 1 << 40]), "preBCS": True})
         # ... and an earlier stream abandoned while compressed bytes were parked in the overflow buffer
         cases.append({"id": len(cases) + 1, "input": p["input"], "opts": p["opts"], "reads": rnd.choice([[4096], [1 << 20], [7, 300], [1]]), "probe": p["id"],
                       "preCode": rnd.choice([4, 5, 6]), "preLen": rnd.choice([300, 70000, 300000]), "preCalls": rnd.choice([1, 2, 5]),
